@@ -345,6 +345,24 @@ def law_batch_subjects(rnd, ev, mods, imps, acc, forced=None):
     conj = "pass" if all(o == "pass" for o in singles) else "fail"
     if ob != conj:
         HUB.violation("C11", f"batch-subjects:{rrule.shape(base)}", f"multi-subject rule gave {ob}, conjunction of its single-subject rules gives {conj} ({singles})", {"case": case})
+    # the same batch handed over in other containers (tuple, one-shot iterator, generator): if the rule gives a verdict
+    # at all, it is the verdict of the batch
+    from pytestarch import Rule
+
+    from ..drive import FILTER_METHOD
+
+    for form, mk in (("tuple", lambda x: tuple(x)), ("iterator", lambda x: iter(list(x))), ("generator", lambda x: (n for n in x))):
+        try:
+            r = getattr(Rule().modules_that(), FILTER_METHOD[kind])(mk(subs))
+            r = getattr(getattr(r, verb)(), IMPORT_METHOD[(d, exc)])()
+            r = getattr(r, FILTER_METHOD[okind])(mk(objs))
+        except Exception as e:  # noqa: BLE001  (rejected container: no rule, no claim)
+            acc.hist("batch_container_rejected", f"{form}:{type(e).__name__}")
+            continue
+        o2 = outcome(r, ev, acc)[0]
+        acc.count("batches_in_another_container")
+        if o2 in ("pass", "fail") and o2 != ob:
+            HUB.violation("C11", f"batch-as-{form}-differs-from-list", f"the batch given as a {form} gave {o2}, given as a list {ob}", {"case": case})
     if imps:
         acc.nontrivial({"m": mods, "i": imps, "b": case["forced"]})
 
